@@ -221,7 +221,11 @@ fn main() {
                 let ci = CAP_EXTRA.iter().position(|e| format!("MAX_SIZE+{}", e) == cap).unwrap_or(0);
                 if let Some(di) = di {
                     let again = vcommon::run_single(exe, &child_args, di * 3 + ci, &crash);
-                    if !again.iter().any(|a| a.key == v.key) {
+                    // memory damage does not fail the same way twice (a wrong value in one run, a
+                    // dead process in the next): any violation of the re-explored case confirms it.
+                    // A death of the process is reported even when the case survives on its own -
+                    // the damage may have been done by an earlier case of the same process.
+                    if again.is_empty() && !v.key.ends_with("/crash") {
                         vcommon::machinery_error(&format!("violation {} did not reproduce when {} was explored again in a fresh process", v.key, dname));
                     }
                 }
